@@ -42,6 +42,21 @@ pub fn project(t: &Table, n_all: usize, n_pub: usize) -> Table {
     out
 }
 
+/// a table over the low `n_pub` variables as a table over `n_vis >= n_pub` variables that does not
+/// depend on the additional ones
+pub fn lift(t: &Table, n_pub: usize, n_vis: usize) -> Table {
+    let sp = Space::new(n_vis);
+    let mut out = sp.zero();
+    let mask = (1u64 << n_pub) - 1;
+    for idx in 0..(1u64 << n_vis) {
+        let p = idx & mask;
+        if (t[(p / 64) as usize] >> (p % 64)) & 1 == 1 {
+            out[(idx / 64) as usize] |= 1 << (idx % 64);
+        }
+    }
+    out
+}
+
 fn preds_of(problems: &[Problem]) -> Vec<(String, usize)> {
     let mut v: Vec<(String, usize)> = vec![];
     for p in problems {
@@ -85,6 +100,11 @@ fn task_syms(t: &ExtTask) -> Vec<String> {
 }
 
 pub struct Setup {
+    /// the predicates on which the two sides are compared: the public ones, then - for a
+    /// specification given as formulas - the specification's own (non-public) predicates. The
+    /// property reads a specification's formulas on the refuting interpretation itself, so these
+    /// are NOT projected away; only program-private predicates are.
+    pub visible: Vec<(String, usize)>,
     pub public: Vec<(String, usize)>,
     pub inputs: Vec<(String, usize)>,
     pub placeholders: Vec<fol::FunctionConstant>,
@@ -153,7 +173,20 @@ pub fn setup(t: &ExtTask, all_preds: &[(String, usize)]) -> Option<Setup> {
             }
         }
     }
-    Some(Setup { public, inputs, placeholders, ug, active, syms })
+    let mut visible = public.clone();
+    if t.left_is_spec {
+        if let Ok(spec) = t.left.parse::<fol::Specification>() {
+            for f in &spec.formulas {
+                for q in f.formula.predicates() {
+                    let k = (q.symbol, q.arity);
+                    if !visible.contains(&k) {
+                        visible.push(k);
+                    }
+                }
+            }
+        }
+    }
+    Some(Setup { visible, public, inputs, placeholders, ug, active, syms })
 }
 
 pub fn placeholder_values(ph: &[fol::FunctionConstant]) -> Vec<HashMap<Key, Val>> {
@@ -206,9 +239,10 @@ fn stable_public(prog: &asp::Program, st: &Setup, consts: &HashMap<Key, Val>, w:
     project(&stable, u.len(), n_pub)
 }
 
-/// table over public atoms of a formula that mentions only public predicates
+/// table over the visible atoms (public, then the specification's own) of a formula of the user guide
+/// or of the specification
 fn public_formula(f: &fol::Formula, st: &Setup, consts: &HashMap<Key, Val>, w: i128, b: i128) -> Table {
-    let u = universe(&st.public, &st.active);
+    let u = universe(&st.visible, &st.active);
     let sp = Space::new(u.len());
     let slice = slice_for(w, &st.syms);
     let mut g = G::new(&u, slice.clone(), slice.widened(std::cmp::max(w, b + 2)));
@@ -229,9 +263,10 @@ pub struct Verdict {
 /// expected refutation tables (forward, backward) over the public atoms
 fn expected(t: &ExtTask, st: &Setup, consts: &HashMap<Key, Val>, w: i128, b: &mut i128) -> Option<(Table, Table)> {
     let n_pub = universe(&st.public, &st.active).len();
-    let sp = Space::new(n_pub);
+    let n_vis = universe(&st.visible, &st.active).len();
+    let sp = Space::new(n_vis);
     let right: asp::Program = t.right.parse().ok()?;
-    let sr = stable_public(&right, st, consts, w, b);
+    let sr = lift(&stable_public(&right, st, consts, w, b), n_pub, n_vis);
     // user-guide assumptions
     let mut uga = sp.full.clone();
     for f in st.ug.formulas() {
@@ -242,7 +277,7 @@ fn expected(t: &ExtTask, st: &Setup, consts: &HashMap<Key, Val>, w: i128, b: &mu
     let (mut fwd, mut bwd);
     if !t.left_is_spec {
         let left: asp::Program = t.left.parse().ok()?;
-        let sl = stable_public(&left, st, consts, w, b);
+        let sl = lift(&stable_public(&left, st, consts, w, b), n_pub, n_vis);
         fwd = and(&sl, &sp.not(&sr));
         bwd = and(&sr, &sp.not(&sl));
     } else {
@@ -338,15 +373,15 @@ pub fn check_task(run: Option<&Run>, mode: Mode, t: &ExtTask) -> Vec<(String, Va
         }
         return out;
     };
-    // universe: public atoms first
-    let mut order = st.public.clone();
+    // universe: visible atoms first (public, then the specification's own)
+    let mut order = st.visible.clone();
     for k in &all_preds {
         if !order.contains(k) {
             order.push(k.clone());
         }
     }
     let u = universe(&order, &st.active);
-    let n_pub = universe(&st.public, &st.active).len();
+    let n_pub = universe(&st.visible, &st.active).len();
     let sp_all = Space::new(u.len());
     let sp_pub = Space::new(n_pub);
     for consts in placeholder_values(&st.placeholders) {
@@ -383,7 +418,7 @@ pub fn check_task(run: Option<&Run>, mode: Mode, t: &ExtTask) -> Vec<(String, Va
                         for (dir, o, e) in [("forward", &pf, ef), ("backward", &pb, eb)] {
                             let d = xor(o, e);
                             if let Some(idx) = sp_pub.first_set(&d) {
-                                let pu = universe(&st.public, &st.active);
+                                let pu = universe(&st.visible, &st.active);
                                 found.push((
                                     format!("refutation_mismatch|{dir}|{fname}"),
                                     json!({"direction": dir, "flags": fname, "placeholders": ctext, "public_interpretation": describe_cl(&pu, idx),
